@@ -339,3 +339,65 @@ theorem taxaBitmask_nonmember : ∀ (ts : List Nat) (s : NS) (acc : Nat), Inv s 
       simp [NS.taxonBitmask, hbm, hnone]
 
 end DendroModel.C10.Aux
+
+namespace DendroModel.C10.Aux
+open DendroModel DendroModel.C10
+
+/-! ### `bitmask_taxa_list` lists the taxa in ascending bit order -/
+theorem btl_sorted (a2t : Map) : ∀ (m index : Nat) (L : List Nat), btl a2t m index = .ok L →
+    L.Pairwise (fun a b => ∃ i j, i < j ∧ a2t.get (index + i) = some a ∧ a2t.get (index + j) = some b) ∧
+    ∀ t ∈ L, ∃ i, a2t.get (index + i) = some t := by
+  intro m
+  induction m using Nat.strongRecOn with
+  | _ m ih =>
+    intro index L hL
+    rw [btl] at hL
+    by_cases h0 : m = 0
+    · subst h0; simp at hL; subst hL; simp
+    · have hlt : m / 2 < m := by omega
+      simp only [h0, dite_false] at hL
+      have lift : ∀ L', btl a2t (m / 2) (index + 1) = .ok L' →
+          L'.Pairwise (fun a b => ∃ i j, i < j ∧ a2t.get (index + i) = some a ∧ a2t.get (index + j) = some b) ∧
+          ∀ t ∈ L', ∃ i, 0 < i ∧ a2t.get (index + i) = some t := by
+        intro L' h'
+        obtain ⟨p, q⟩ := ih (m / 2) hlt (index + 1) L' h'
+        constructor
+        · refine p.imp ?_
+          rintro a b ⟨i, j, hij, ha, hb⟩
+          exact ⟨i + 1, j + 1, by omega, by rwa [show index + (i + 1) = index + 1 + i by omega],
+            by rwa [show index + (j + 1) = index + 1 + j by omega]⟩
+        · intro t ht
+          obtain ⟨i, hi⟩ := q t ht
+          exact ⟨i + 1, by omega, by rwa [show index + (i + 1) = index + 1 + i by omega]⟩
+      by_cases h1 : m % 2 = 1
+      · simp only [h1, if_true] at hL
+        cases hget : a2t.get index with
+        | none => rw [hget] at hL; cases hL
+        | some t0 =>
+          rw [hget] at hL
+          simp only at hL
+          cases hrec : btl a2t (m / 2) (index + 1) with
+          | error e => rw [hrec] at hL; cases hL
+          | ok L' =>
+            rw [hrec] at hL
+            simp only [Except.ok.injEq] at hL
+            subst hL
+            obtain ⟨p, q⟩ := lift L' hrec
+            constructor
+            · rw [List.pairwise_cons]
+              refine ⟨?_, p⟩
+              intro b hb
+              obtain ⟨j, hj, hg⟩ := q b hb
+              exact ⟨0, j, hj, by simpa using hget, hg⟩
+            · intro t ht
+              rcases List.mem_cons.1 ht with e | e
+              · subst e; exact ⟨0, by simpa using hget⟩
+              · obtain ⟨i, _, hi⟩ := q t e; exact ⟨i, hi⟩
+      · simp only [h1, if_false] at hL
+        obtain ⟨p, q⟩ := lift L hL
+        exact ⟨p, fun t ht => by obtain ⟨i, _, hi⟩ := q t ht; exact ⟨i, hi⟩⟩
+
+theorem labelMatches_self (lab : Nat → String) (cs : Bool) (t : Nat) : labelMatches lab cs (lab t) t = true := by
+  unfold labelMatches; cases cs <;> simp
+
+end DendroModel.C10.Aux
